@@ -5,6 +5,7 @@ import (
 	"go/constant"
 	"go/token"
 	"go/types"
+	"sort"
 
 	"golang.org/x/tools/go/ssa"
 )
@@ -822,8 +823,8 @@ func init() {
 	dawgWriters := []string{"(*dawg.Dawg).commonPrefix", "(*dawg.Dawg).addSuffix", "dawg.replaceOrRegister", "(*dawg.Dawg).GobDecode", "(*dawg.Builder).Add", "(*dawg.Builder).Finish"}
 	register(&propDef{
 		id:          "C12",
-		explanation: "Decides four structural clauses of the builder/query split: REJECT-PURE (on every CFG path of Builder.Add that ends in a non-nil error return nothing rooted at the receiver is written, lazy Initialise excepted), MUSTGUARD (removing the edges on which 'previous word < new word' or 'no previous word' holds disconnects every builder mutation from the entry of Add, so neither equal nor smaller words can be added), NONEMPTY (replaceOrRegister's t.links[len-1] needs len(t.links) >= 1, lifted to a precondition and proved at each call site by E-PROVE), PURE + WHO-WRITES (queries write no Dawg node; the only functions that can are the construction-time ones), EQUIV (areEquivalent, on whose answer two states are merged, is explored under the hypotheses 'the nodes differ in finality / in the number of children / in one label / in one target': with the control-flow edges that the hypothesis rules out removed - the equal edge of the field's comparisons, the normal exit of a comparison loop whose recognised index range, together with explicitly compared indices, covers the whole slice - no return that may be true is reachable). Does not decide the accepted language, minimality or ranks.",
-		notDecided:  []string{"that the automaton accepts exactly the words added", "minimality (node count)", "rank arithmetic of Lookup", "that Finish can only be called once (done is never set)"},
+		explanation: "Decides structural clauses of the builder/query split: REJECT-PURE (on every CFG path of Builder.Add that ends in a non-nil error return nothing rooted at the receiver is written, lazy Initialise excepted), MUSTGUARD (removing the edges on which 'previous word < new word' or 'no previous word' holds disconnects every builder mutation from the entry of Add, so neither equal nor smaller words can be added), NONEMPTY (replaceOrRegister's t.links[len-1] needs len(t.links) >= 1, lifted to a precondition and proved at each call site by E-PROVE), PURE + WHO-WRITES (queries write no Dawg node; the only functions that can are the construction-time ones), EQUIV (areEquivalent, on whose answer two states are merged, is explored under the hypotheses 'the nodes differ in finality / in the number of children / in one label / in one target': with the control-flow edges that the hypothesis rules out removed - the equal edge of the field's comparisons, the normal exit of a comparison loop whose recognised index range, together with explicitly compared indices, covers the whole slice - no return that may be true is reachable), OWNWORD (Add stores no memory of its argument into the builder, so the word the order check compares against is the builder's own copy and not a buffer the caller goes on to reuse), SEAL (Finish stores a constant into a builder field - the finished mark, found in the code - on every path to a successful return, and in Add and Finish no write to the builder is reachable from the entry once the edges on which that mark is known to be absent are removed, the lazy initialiser excepted: the automaton handed out is not edited afterwards). Does not decide the accepted language, minimality or ranks.",
+		notDecided:  []string{"that the automaton accepts exactly the words added", "minimality (node count)", "rank arithmetic of Lookup"},
 		assumptions: []string{"bytes.Compare returns a value in {-1,0,1}"},
 		run: func(c *Ctx, tier string) []*RuleResult {
 			rp := &RuleResult{Rule: "REJECT-PURE", Doc: "no write rooted at the builder on any path to an error return of Add (lazy Initialise excepted)", MinInst: 2}
@@ -852,7 +853,11 @@ func init() {
 				eq.MinInst = 0
 				eq.note("dawg.areEquivalent no longer exists: the state comparison is not judged")
 			}
-			return []*RuleResult{rp, mg, ne, pure, ww, bw, eq}
+			ow := &RuleResult{Rule: "OWNWORD", Doc: "Add keeps no memory of its argument in the builder: the word the order check compares against is the builder's own copy, which a caller reusing its buffer cannot rewrite", MinInst: 1}
+			ruleOwnWord(c, ow, "(*dawg.Builder).Add")
+			sl := &RuleResult{Rule: "SEAL", Doc: "Finish marks the builder finished on every successful return (a constant stored into a builder field), and in Add and Finish no write to the builder is reachable once that mark is set: the automaton handed out is not edited afterwards", MinInst: 3}
+			ruleSeal(c, sl, "(*dawg.Builder).Finish", "(*dawg.Builder).Initialise", []string{"(*dawg.Builder).Add", "(*dawg.Builder).Finish"})
+			return []*RuleResult{rp, mg, ne, pure, ww, bw, eq, ow, sl}
 		},
 		controls: func(ctl *Ctx) []*RuleResult {
 			var out []*RuleResult
@@ -888,7 +893,55 @@ func init() {
 			bw := &RuleResult{Rule: "BYTEWISE"}
 			ruleBytewise(ctl, bw, "guardctl")
 			out = append(out, bw)
+			for _, bad := range [][]string{{"(*sealctl.B1).BadFinishNoMark", "(*sealctl.B1).init"}, {"(*sealctl.B2).BadFinishMarkOnOneBranch", "(*sealctl.B2).init"}} {
+				sl := &RuleResult{Rule: "SEAL"}
+				ruleSeal(ctl, sl, bad[0], bad[1], []string{bad[0]})
+				out = append(out, sl)
+			}
+			sl := &RuleResult{Rule: "SEAL"}
+			ruleSeal(ctl, sl, "(*sealctl.B3).Finish", "(*sealctl.B3).init", []string{"(*sealctl.B3).BadAddIgnoresMark", "(*sealctl.B3).GoodAdd", "(*sealctl.B3).Finish"})
+			ruleSeal(ctl, sl, "(*sealctl.B4).GoodFinishEnum", "(*sealctl.B4).init", []string{"(*sealctl.B4).GoodAddEnum", "(*sealctl.B4).GoodFinishEnum"})
+			out = append(out, sl)
+			ow := &RuleResult{Rule: "OWNWORD"}
+			ruleOwnWord(ctl, ow, "(*guardctl.B).BadAddKeepsWord")
+			ruleOwnWord(ctl, ow, "(*guardctl.B).GoodAddCopiesWord")
+			out = append(out, ow)
 			return out
 		},
 	})
+}
+
+// ruleOwnWord: the method stores no memory reachable from its (non-receiver) arguments into memory
+// reachable from the receiver (E-EFF store edges, callees included). For Builder.Add this is what
+// makes the recorded previous word mean "the word added last": a retained caller slice is compared
+// with whatever the caller has since written into it (bufio.Scanner.Bytes, a reused line buffer), so
+// an in-order word is rejected or an out-of-order word accepted.
+func ruleOwnWord(c *Ctx, r *RuleResult, name string) {
+	fn := c.Fn(name)
+	if !checkUnknown(c, r, fn) {
+		return
+	}
+	E := c.Eff()
+	r.inst("%s: the receiver keeps no memory of the arguments", name)
+	bad := map[string]bool{}
+	var keys []string
+	for _, e := range E.sums[fn].Stores {
+		if e.src.Root >= 1 && e.src.Root < len(fn.Params) && e.dst.Root == 0 {
+			k := fn.Params[e.src.Root].Name()
+			if !bad[k] {
+				bad[k] = true
+				keys = append(keys, k)
+			}
+		}
+	}
+	sort.Strings(keys)
+	for _, k := range keys {
+		for _, e := range E.sums[fn].Stores {
+			if e.src.Root >= 1 && e.src.Root < len(fn.Params) && e.dst.Root == 0 && fn.Params[e.src.Root].Name() == k {
+				r.find(name+":keeps "+k, c.pos(fn.Pos()), "%s stores memory of its argument %s into the receiver (%s <- %s): the recorded word changes when the caller reuses the slice, so the order check compares the new word with something other than the word added last", name, k, E.apString(fn, e.dst), E.apString(fn, e.src))
+				break
+			}
+		}
+	}
+	r.oblig(len(keys) == 0)
 }
